@@ -21,12 +21,15 @@ ContextSkip == 2          \* contextCallerSkipFrameCount (go >= 1.12)
 
 Mechs == {"ev", "evk", "ctx", "ctxcount", "evskipframe", "evskipchain", "global"}
 Entries == {"Trace", "Debug", "Info", "Warn", "Error", "WithLevel", "Err", "Log", "Panic",
-            "Print", "Printf", "Println", "Write", "log.Info", "log.Error", "log.Log", "log.WithLevel", "log.Err", "log.Print", "log.Printf"}
-Fins == {"Msg", "Msgf", "MsgFunc", "Send"}
+            "Print", "Printf", "Println", "Write", "log.Info", "log.Error", "log.Log", "log.WithLevel", "log.Err", "log.Print", "log.Printf",
+            \* argument shapes of the printf-style entry points: no arguments at all / a constant format (a fast path is a frame)
+            "Print0", "Printf0", "log.Printf0"}
+\* finalizers, with the argument shapes a shortcut could key on: Msg(""), Msgf without arguments, Msgf with an escaped verb only
+Fins == {"Msg", "MsgEmpty", "Msgf", "Msgf0", "MsgfPct", "MsgFunc", "Send"}
 Others == {"none", "before", "after"}
 Depths == 0..3
 \* Print*/Write finish the event themselves
-SelfFinishing(e) == e \in {"Print", "Printf", "Println", "Write", "log.Print", "log.Printf"}
+SelfFinishing(e) == e \in {"Print", "Printf", "Println", "Write", "log.Print", "log.Printf", "Print0", "Printf0", "log.Printf0"}
 
 \* internal frames between runtime.Caller and the user's statement u0 (innermost first)
 Internal(mech, entry) ==
